@@ -1,6 +1,6 @@
 """C31 — SuperSpeed scrambling uses the USB3 LFSR and descrambling inverts it.
 
-DUTs (real luna classes, domain "ss"), one of three harnesses per case:
+DUTs (real luna classes, domain "ss"), one of four harnesses per case:
   lfsr : ScramblerLFSR(initial_value=iv) alone; clear/advance driven randomly; `value` compared every cycle.
   scr  : Scrambler(initial_value=iv) or Descrambler() alone; hostile word stream on `sink`, stalls on
          `source.ready`, `hold`, `clear` (only in cycles without a valid word) and `enable` phases.
@@ -8,6 +8,12 @@ DUTs (real luna classes, domain "ss"), one of three harnesses per case:
          physical layer: `insert` (hold=1, the word offered by the scrambler in that cycle is consumed and
          discarded, the descrambler sees no word = a SKP word was inserted and removed again) and `pause`
          (scrambler stalled alone).  Back-pressure from the descrambler's source stalls both.
+  layer: the real USB3PhysicalLayer(phy=PIPEInterface(width=4)) with the PHY transmit pins wired to the receive pins;
+         the testbench plays the link layer (a COM-led word to synchronise both LFSRs, bursts of tagged data/control
+         words, stretches of logical idle with `can_send_skp`), so the real `hold` wiring is exercised: Scrambler ->
+         CTCSkipInserter -> pins -> CTCSkipRemover -> RxWordAligner -> Descrambler -> RxPacketAligner.  The words
+         leaving `source` must be the words accepted on `sink`, in order and unaltered, except that logical-idle
+         words offered while SKP insertion was allowed may be missing (they were replaced by SKP words).
 
 Workload: words of four (data, ctrl) symbols built from adversarial templates (COM in symbol 0 followed by data,
 COM only in symbols 1..3, data byte 0xBC that is *not* a COM, all-control, all-data/zero words that expose the raw
@@ -24,17 +30,18 @@ leaving the descrambler must be exactly the words that entered the scrambler (mi
 
 Not judged: data symbols while `enable` is low (pass-through is documented but not part of the statement; control
 symbols and word order are still judged); `clear` together with a valid word; COM-led words offered while `hold`
-is high (never generated); the CTC wiring of `hold` inside USB3PhysicalLayer (decided by C33 on the real layer).
+is high (never generated); which idle words the transmit CTC replaces and how often (C33); the start-up cycles
+of the physical layer before the first COM-led word (the LFSRs of both directions are not yet synchronised).
 """
 from rv.sim import Bench
 from rv.ref import c31_lfsr as L
 
 PROPERTY = "C31"
 CASES = {"quick": 288, "thorough": 5000}
-RULE = ("case = harness (lfsr | scr | loop) x initial value x ready/valid profile x 150-500 template words (or 400-1200 "
+RULE = ("case = harness (lfsr | scr | loop | layer) x initial value x ready/valid profile x 150-500 template words (or 400-1200 "
         "cycles of clear/advance for lfsr); non-trivial = at least one restart by COM followed by scrambled data and one "
         "stall and one control symbol; distinct = hash of configuration and the full word/strobe script")
-REQUIRED_BINS = ["mode_lfsr", "mode_scr", "mode_loop", "class_descrambler",
+REQUIRED_BINS = ["mode_lfsr", "mode_scr", "mode_loop", "mode_layer", "layer_skp_removed", "layer_data_after_skp", "class_descrambler",
                  "com_sym0_then_data_word", "com_sym0_with_data_symbols", "com_only_in_sym1_3", "data_bc_in_sym0",
                  "four_com_word", "mixed_word", "all_ctrl_word", "zero_data_word",
                  "stall_on_data_word", "stall_on_com_word", "stall_on_word_after_com", "valid_gap", "hold_with_transfer",
@@ -42,7 +49,8 @@ REQUIRED_BINS = ["mode_lfsr", "mode_scr", "mode_loop", "class_descrambler",
                  "lfsr_clear_with_advance", "lfsr_advance_gap", "lfsr_run_ge_100",
                  "loop_insert", "loop_pause", "loop_backpressure", "iv_ffff", "iv_other"]
 REQUIRED_EVENTS = ["lfsr_values_compared", "words_compared", "data_symbols_compared", "ctrl_symbols_compared",
-                   "restarts_by_com", "loop_words_compared", "sink_transfers", "source_transfers"]
+                   "restarts_by_com", "loop_words_compared", "sink_transfers", "source_transfers", "layer_words_compared",
+                   "layer_idle_words_replaced"]
 ASSUMPTIONS = ["hold is a per-cycle side-band sampled in the cycle in which the word is taken from the sink",
                "clear is only strobed in cycles without a valid sink word",
                "data symbols are not judged while enable is low",
@@ -563,12 +571,144 @@ def run_stream(rng, tier, res, mode):
                           and (bins.get("stall_on_data_word") or bins.get("valid_gap")))
 
 
+# ---------------------------------------------------------------------------------------------- physical layer loop-back
+LAYER_K = [0x5C, 0x7C, 0x9C, 0xDC, 0xFD]          # SDP EDB SUB RSD END: never an alignment marker, never SKP
+
+
+def run_layer(rng, tier, res):
+    """Real USB3PhysicalLayer, PHY transmit pins looped to the receive pins; the testbench plays the link layer."""
+    from amaranth import Elaboratable, Module
+    from luna.gateware.interface.pipe import PIPEInterface
+    from luna.gateware.usb.usb3.physical.layer import USB3PhysicalLayer
+
+    class Top(Elaboratable):
+        def __init__(self):
+            self.phy = PIPEInterface(width=4)
+            self.phy._MustUse__silence = True        # used as a plain bundle of pins, never elaborated
+            self.layer = USB3PhysicalLayer(phy=self.phy, sync_frequency=125e6)
+
+        def elaborate(self, platform):
+            m = Module()
+            m.submodules.layer = self.layer
+            m.d.comb += [self.phy.rx_data.eq(self.phy.tx_data), self.phy.rx_datak.eq(self.phy.tx_datak)]
+            return m
+
+    top = Top()
+    lay = top.layer
+    nwords = rng.randint(700, 1500)
+    p_idle = rng.choice([0.3, 0.5, 0.8])
+    tag = [rng.randrange(256)]
+
+    def dsym():
+        tag[0] = (tag[0] + 1) & 0xFF
+        return (tag[0] if rng.random() < 0.85 else rng.choice([0x00, 0xBC, 0x3C, rng.randrange(256)]), 0)
+
+    def pack(syms):
+        d = c = 0
+        for i, (v, k) in enumerate(syms):
+            d |= v << (8 * i)
+            c |= k << i
+        return d, c
+
+    # script: (data, ctrl, can_send_skp)
+    script = [pack([(COM, 1)] + [(rng.choice(LAYER_K), 1) for _ in range(3)]) + (0,)]
+    while len(script) < nwords:
+        r = rng.random()
+        if r < p_idle:
+            for _ in range(rng.choice([1, 2, 5, 20, 60])):
+                script.append((0, 0, 1))                  # logical idle, SKP insertion allowed
+        elif r < p_idle + 0.03:
+            script.append(pack([(COM, 1)] + [dsym() for _ in range(3)]) + (0,))
+        else:
+            for _ in range(rng.choice([1, 3, 5, 8, 40, 260])):
+                syms = [dsym() if rng.random() < 0.9 else (rng.choice(LAYER_K), 1) for _ in range(4)]
+                script.append(pack(syms) + (0,))
+    for _ in range(12):
+        script.append((0, 0, 0))
+    b = Bench(top, domain="ss", freq=125e6, clocks={"sync": 125e6}, max_cycles=len(script) * 3 + 200)
+    b.watch(lay.sink.ready, lay.source.valid, lay.source.payload, lay.source.ctrl, lay.skip_removed)
+    res.desc = {"mode": "layer", "words": len(script), "p_idle": p_idle, "first_words": ["%08x/%x" % (d, c) for d, c, _ in script[:8]]}
+    res.sig("layer", script)
+    sent, got = [], []
+    st = {"done": False}
+
+    def driver():
+        b.set(lay.enable_scrambling, 1)
+        b.set(lay.tx_electrical_idle, 0)
+        # start-up: the transmit path's ready is registered and low in the first cycle; whatever is offered then
+        # is not part of the judged stream
+        b.set(lay.sink.valid, 1)
+        b.set(lay.sink.payload, 0)
+        b.set(lay.sink.ctrl, 0)
+        for _ in range(rng.randint(4, 9)):
+            yield
+        for d, c, skp in script:
+            b.set(lay.sink.valid, 1)
+            b.set(lay.sink.payload, d)
+            b.set(lay.sink.ctrl, c)
+            b.set(lay.can_send_skp, skp)
+            for _ in range(200):
+                yield
+                if b.get(lay.sink.ready):
+                    break
+            else:
+                res.violation("layer_sink_never_ready", "word not taken within 200 cycles")
+                return
+            sent.append((d, c, skp))
+        st["done"] = True
+
+    def monitor(b):
+        if b.get(lay.skip_removed):
+            res.bin("layer_skp_removed")
+        if b.get(lay.source.valid):
+            got.append((b.get(lay.source.payload), b.get(lay.source.ctrl), b.cycle))
+
+    b.add_driver(driver())
+    b.add_monitor(monitor)
+    b.run()
+    res.cycles = b.cycle
+    if not st["done"]:
+        if not res.violations:
+            res.violation("layer_sink_never_ready", "driver did not finish in %d cycles" % b.cycle)
+        return
+    # the received stream must be the sent stream from the first COM word on, with nothing altered and nothing
+    # missing except logical-idle words that were offered while SKP insertion was allowed
+    start = next((j for j, g in enumerate(got) if g[0] == sent[0][0] and g[1] == sent[0][1]), None)
+    if start is None:
+        res.violation("layer_sync_word_missing", "the leading COM word never came back (%d words received)" % len(got))
+        return
+    i = 0
+    dropped = 0
+    for d, c, cyc in got[start:]:
+        while i < len(sent) and (sent[i][0], sent[i][1]) != (d, c) and sent[i] == (0, 0, 1):
+            i += 1
+            dropped += 1
+        if i >= len(sent):
+            res.violation("layer_word_without_input", "cyc=%d received %08x/%x after all sent words were matched" % (cyc, d, c))
+            return
+        if (sent[i][0], sent[i][1]) != (d, c):
+            mech = "layer_roundtrip_mismatch_after_skp" if dropped else "layer_roundtrip_mismatch"
+            res.violation(mech, "cyc=%d sent word #%d %08x/%x came back as %08x/%x (%d idle words replaced by SKP so far)"
+                          % (cyc, i, sent[i][0], sent[i][1], d, c, dropped))
+            return
+        res.event("layer_words_compared")
+        if dropped and c != 0xF:
+            res.bin("layer_data_after_skp")
+        i += 1
+    if len(sent) - i > 10:
+        res.violation("layer_words_lost", "%d sent words never came back" % (len(sent) - i))
+    res.event("layer_idle_words_replaced", dropped)
+    res.nontrivial = dropped > 0
+
+
 def run_case(rng, tier, res):
     if not L.selftest():
         raise RuntimeError("reference LFSR self-test failed")
-    mode = rng.choice(["lfsr", "scr", "scr", "scr", "loop", "loop"])
+    mode = rng.choice(["lfsr", "lfsr", "scr", "scr", "scr", "scr", "scr", "scr", "loop", "loop", "loop", "layer"])
     res.bin("mode_" + mode)
     if mode == "lfsr":
         run_lfsr(rng, tier, res)
+    elif mode == "layer":
+        run_layer(rng, tier, res)
     else:
         run_stream(rng, tier, res, mode)
